@@ -370,8 +370,113 @@ pub fn run(ctx: &Ctx) -> Report {
         builder.shutdown();
         Ok(())
     };
-    if let Err(e) = go() {
-        report.machinery_errors.push(e);
+    if which.as_deref().map(|w| !w.starts_with("dyn-maturity/")).unwrap_or(true) {
+        if let Err(e) = go() {
+            report.machinery_errors.push(e);
+        }
+    }
+    if which.as_deref().map(|w| w.starts_with("dyn-maturity/")).unwrap_or(true) {
+        if let Err(e) = dyn_maturity_family(ctx, &mut report, which.as_deref()) {
+            report.machinery_errors.push(format!("dynamic-epoch maturity family: {e}"));
+        }
     }
     report
+}
+
+/// Cellbase maturity across epochs of different lengths.  Dynamic-difficulty world (epochs of 4, 8,
+/// 16 blocks), maturity one epoch.  The first cellbase with an output is block 6's, at position 2/8
+/// of epoch 1; it matures at 2/8 = 4/16 of epoch 2, i.e. in block 16.  A transaction spending it,
+/// and one naming it as a cell dep, is committed in block 14 / 15 (immature: the block must be
+/// refused) and in block 16 (accepted), on a chain that proposes it two blocks earlier.  The same
+/// for block 7's cellbase (3/8 -> 6/16: block 18).
+fn dyn_maturity_family(ctx: &Ctx, report: &mut Report, only: Option<&str>) -> Result<(), String> {
+    let mut w = WorldOpts::default();
+    w.permanent_difficulty = false;
+    w.genesis_compact_target = ckb_types::utilities::difficulty_to_compact(ckb_types::U256::from(1u64 << 24));
+    w.cellbase_maturity = EpochNumberWithFraction::new(1, 0, 1);
+    let cons = consensus(&w);
+    set_time(time_for_height(NOW_HEIGHT + 40));
+    let dir = ctx.scratch.join("c04-dyn");
+    let _ = std::fs::remove_dir_all(&dir);
+    let node = Node::boot(&dir, &NodeOpts::new(cons.clone()))?;
+    node.wait_startup()?;
+    let g = genesis_cells(&cons);
+    // chain 1..=13 (no transactions): learn the cellbases of blocks 6 and 7
+    let mut chain: Vec<BlockView> = vec![];
+    for n in 1..=7u64 {
+        let b = assemble(&node.shared.snapshot(), &BlockSpec { miner: (n % 5) as u8 + 1, ..Default::default() })?;
+        node.process(&b).map_err(|e| format!("block {n}: {e}"))?;
+        chain.push(b);
+    }
+    let cb = |n: usize| -> Result<(OutPoint, u64, EpochNumberWithFraction), String> {
+        let b = &chain[n - 1];
+        let tx = &b.transactions()[0];
+        let o = tx.outputs().get(0).ok_or_else(|| format!("cellbase of block {n} has no output"))?;
+        Ok((OutPoint::new(tx.hash(), 0), o.capacity().unpack(), b.epoch()))
+    };
+    // (name, cellbase block, first mature block)
+    let mut subjects = vec![];
+    for (n, mature_at) in [(6usize, 16u64), (7, 18)] {
+        let (op, cap, ep) = cb(n)?;
+        if ep.length() != 8 || ep.number() != 1 {
+            return Err(format!("block {n} is at {ep}, expected epoch 1 of 8 blocks"));
+        }
+        let spend = simple_tx(&cons, &[(op.clone(), cap)], 1, 1_000_000, 90 + n as u8);
+        // the cell's lock carries the miner's args: the lock is still the always-success code
+        let dep = simple_tx(&cons, &g[n - 6..n - 5], 1, 1_000_000, 95 + n as u8).as_advanced_builder().cell_dep(CellDep::new_builder().out_point(op).dep_type(DepType::Code).build()).build();
+        subjects.push((format!("spend-of-cellbase-{n}"), spend, mature_at));
+        subjects.push((format!("dep-on-cellbase-{n}"), dep, mature_at));
+    }
+    let base_tip = node.tip().hash();
+    // blocks of different candidates must differ (a truncated block stays stored with its verdict
+    // and would be answered "already verified" without moving the tip)
+    let mut salt = 0u64;
+    for (name, tx, mature_at) in subjects {
+        for commit_at in [mature_at - 2, mature_at - 1, mature_at, mature_at + 1] {
+            salt += 1;
+            let cname = format!("dyn-maturity/{name}/commit-in-{commit_at}");
+            if let Some(o) = only {
+                if o != cname {
+                    continue;
+                }
+            }
+            let want_ok = commit_at >= mature_at;
+            // back to block 7, then empty blocks up to commit_at - 1 with the proposal two blocks before the commit
+            if node.tip().hash() != base_tip {
+                node.chain().truncate(base_tip.clone()).map_err(|e| e.to_string())?;
+            }
+            for n in 8..commit_at {
+                let mut spec = BlockSpec { miner: 1, ts_offset: salt, ..Default::default() };
+                if n == commit_at - 2 {
+                    spec.proposals = vec![tx.proposal_short_id()];
+                }
+                let b = assemble(&node.shared.snapshot(), &spec)?;
+                node.process(&b).map_err(|e| format!("{cname}: block {n}: {e}"))?;
+                if node.tip().hash() != b.hash() {
+                    return Err(format!("{cname}: block {n} did not become the tip"));
+                }
+            }
+            let tip_before = node.tip().hash();
+            let cand = assemble(&node.shared.snapshot(), &BlockSpec { miner: 2, ts_offset: salt, txs: vec![tx.clone()], ..Default::default() })?;
+            let pos = cand.epoch();
+            let v = node.process(&cand);
+            report.transitions += 1;
+            report.evaluations += 1;
+            let ok = matches!(v, Ok(true));
+            let label = json!({"candidate": cname, "commit_position": pos.to_string(), "cellbase_block": name});
+            if ok != want_ok {
+                report.violation(format!("{}/{}", if want_ok { "valid-tx-refused-in-block" } else { "invalid-tx-accepted-in-block" }, cname), format!("block {commit_at} (epoch position {pos}) using the cellbase output was answered {:?}; the cellbase matures in block {mature_at}", v.as_ref().map_err(|e| e.to_string())), label.clone());
+            }
+            if !ok && node.tip().hash() != tip_before {
+                report.violation(format!("verdict-and-tip-disagree/{cname}"), "the refused block moved the tip".to_string(), label.clone());
+            }
+            report.states.insert(fp(&cname));
+            report.outcomes.insert(fp(&("dyn-maturity", ok)));
+            report.nontrivial.insert(fp(&cname));
+            report.traces += 1;
+        }
+    }
+    report.count("dyn_maturity_candidates", 16);
+    node.shutdown();
+    Ok(())
 }
